@@ -266,10 +266,15 @@ def move_order(P: Program, R: Report, ann, fams) -> None:
     for fam in fams:
         mp = fam["map"]
 
+        def aliases(m):
+            return {t.id for s_ in ast.walk(m.node) if isinstance(s_, ast.Assign) and f"self.{mp}" in norm(s_.value) for t in s_.targets if isinstance(t, ast.Name)}
+
         def touches(m, kinds):
             out = []
+            al = aliases(m)
             for x in ast.walk(m.node):
-                if isinstance(x, ast.Call) and isinstance(x.func, ast.Attribute) and x.func.attr in kinds and f"self.{mp}" in norm(x.func.value):
+                if isinstance(x, ast.Call) and isinstance(x.func, ast.Attribute) and x.func.attr in kinds and (
+                        f"self.{mp}" in norm(x.func.value) or (isinstance(x.func.value, ast.Name) and x.func.value.id in al)):
                     out.append(x)
                 if "del" in kinds and isinstance(x, ast.Delete) and any(f"self.{mp}[" in norm(t) for t in x.targets):
                     out.append(x)
@@ -300,8 +305,10 @@ def move_order(P: Program, R: Report, ann, fams) -> None:
                         continue
                     add_first = sa_ != sr and cfg.reachable(sa_, sr)
                     adder = only_add[a.func.attr]
+                    al_ = aliases(adder)
                     dedup = any(isinstance(i, ast.If) and "not in" in norm(i.test) and any(isinstance(x, ast.Call) and call_name(x) in ("append", "extend") for x in ast.walk(i))
-                                for i in ast.walk(adder.node) if isinstance(i, ast.If) and mp in norm(i.test) and "[" in norm(i.test)) or bool(touches(adder, ("add", "update")))
+                                for i in ast.walk(adder.node) if isinstance(i, ast.If) and ((mp in norm(i.test) and "[" in norm(i.test)) or any(
+                                    isinstance(x, ast.Name) and x.id in al_ for x in ast.walk(i.test)))) or bool(touches(adder, ("add", "update")))
                     remover = only_rem[r.func.attr]
                     rem_all = bool(touches(remover, ("discard", "difference_update"))) or any(
                         isinstance(s, ast.Assign) and f"self.{mp}[" in norm(s.targets[0]) and isinstance(s.value, (ast.ListComp, ast.SetComp)) for s in ast.walk(remover.node))
@@ -316,4 +323,4 @@ def move_order(P: Program, R: Report, ann, fams) -> None:
                                f"{' every occurrence' if rem_all else ''}: when the old and the new id are equal (undo of a relabel that kept the id) the nodes end up in no entry")
                     else:
                         R.ok("R06.8", m, a, f"{name}: add-then-remove on a plain list (extend, then remove one occurrence each) keeps one copy", via="cfg-order")
-    R.floor("R06.8", "move sites (remove + add of the same nodes)", n, 2)
+    R.floor("R06.8", "move sites (remove + add of the same nodes)", n, 1)
